@@ -152,3 +152,14 @@ _t_shared_structs = tasks
 def tasks(tier):
     from specs.C08 import shared_struct_tasks
     return _t_shared_structs(tier) + shared_struct_tasks('C05.e.', ['LendingAccountLiquidate'])
+
+
+
+# ---------------------------------------------------------------- C05.f: the four wrapper legs of a liquidation in their liquidation modes (kernel level, native replay)
+from specs.wrappers import replay_wrapper as _rw5
+REPLAYERS = dict(globals().get('REPLAYERS', {})); REPLAYERS['wrapper'] = _rw5
+_t_legs = tasks
+def tasks(tier):
+    from specs.wrappers import wrapper_task
+    n = 40 if tier == 'quick' else 1000
+    return _t_legs(tier) + [(f'leg:{op}', wrapper_task(op, 'C05', n)) for op in ('withdraw_ignore_borrow_cap', 'deposit_ignore_deposit_cap', 'repay')]
